@@ -15,7 +15,7 @@ for links_from_html (own followability rule + stdlib urljoin) compared as lists.
 """
 import itertools
 from html import unescape
-from urllib.parse import urljoin
+from urllib.parse import urljoin, urlsplit
 import re
 
 from hypothesis import strategies as st
@@ -61,7 +61,14 @@ def ref_links(base, hrefs, canonicalize, unique, strip_fragment):
     for h in hrefs:
         if not h or not ref_follow(h):
             continue
-        url = h if HTTP.match(h) else urljoin(base, h)
+        # a href that cannot be resolved / parsed (unbalanced bracket, port out of range) is not followable: it is skipped, and the rest of
+        # the document is still processed
+        try:
+            url = h if HTTP.match(h) else urljoin(base, h)
+            if canonicalize:
+                urlsplit(url).port     # no canonical form exists for a port out of range; without canonicalize is_url alone decides
+        except ValueError:
+            continue
         if not is_url(url, require_protocol=True, tld_aware=True, allow_spaces_in_path=True, only_http_https=True):
             continue
         if canonicalize:
@@ -90,7 +97,7 @@ def render(elements):
             tag = "<%s%s%s%s=%s%s>%s%s" % (e.get("tag", "a"), e.get("before", ""), e.get("sep", " "), e.get("attr", "href"), val,
                                            e.get("after", ""), e.get("text", "x"), "</a>" if e.get("closed", True) else "")
             doc.append(tag)
-            if e.get("sep", " ") in (" ", "\n", "\t", "\r", "\x0c", "  ") and not e.get("in_script"):
+            if e.get("sep", " ") in (" ", "\n", "\t", "\r", "\x0c", "  ") and not e.get("in_script") and e.get("tag", "a").lower() == "a":
                 exp.append(unescape(raw.strip()))
         elif k == "script":
             inner, inner_exp = render([dict(x, in_script=e.get("real", True)) for x in e["inner"]])
@@ -156,14 +163,45 @@ def eval_html(case):
     return dedup
 
 
+def _tricky(case):
+    return any(e.get("k") == "a" and any(t in (e.get("before", "") + e.get("after", "")) for t in (">", "href=")) for e in _all_elements(case.get("elements", [])))
+
+
+def _all_elements(els):
+    for e in els:
+        yield e
+        if e.get("k") == "script":
+            for x in _all_elements(e.get("inner", [])):
+                yield x
+
+
+def _neutralise_tricky(case):
+    def fix(els):
+        out = []
+        for e in els:
+            e = dict(e)
+            if e.get("k") == "a":
+                for side in ("before", "after"):
+                    if any(t in e.get(side, "") for t in (">", "href=")):
+                        e[side] = ""
+            if e.get("k") == "script":
+                e["inner"] = fix(e.get("inner", []))
+            out.append(e)
+        return out
+    return dict(case, elements=fix(case["elements"]))
+
+
+TRIGGERS = {"markup-inside-another-attribute": (_tricky, _neutralise_tricky)}
+
 EVALUATORS = {"html": eval_html}
 
 BASE = "http://www.site.com/dir/page.html"
-HREFS = ["\n  http://a.com/nl\n", "http://a.com/?id=3&amp;amp;copy=2", "/a&amp;#x2F;b&amp;lt;", "//intranet/d", "//static.site.zzzz/c", "//localhost/x", "http://a.com/x", "https://b.org/y?z=1&amp;w=2", "//c.net/p", "/rel", "rel/x", "../up", "#frag", "javascript:void(0)", "mailto:x@y.z", "",
+HREFS = ["http://lemonde.fr:99999/x", "//[x", "http://[@lemonde.fr/", "http://[::1", "http://a.com:abc/", "http://[::1]:8080/ok", "\n  http://a.com/nl\n", "http://a.com/?id=3&amp;amp;copy=2", "/a&amp;#x2F;b&amp;lt;", "//intranet/d", "//static.site.zzzz/c", "//localhost/x", "http://a.com/x", "https://b.org/y?z=1&amp;w=2", "//c.net/p", "/rel", "rel/x", "../up", "#frag", "javascript:void(0)", "mailto:x@y.z", "",
          "http://bad.zzzz/x", BASE, "HTTP://A.COM/x", "http://a.com/x#frag", "http://a.com/a&#x2F;b", "http://a.com/é", "/p?q=1&amp;r=2",
          "http://a.com:80/x/../x", "http://www.site.com/dir/page.html#top", "page.html", "?q=2", "http://a.com/%7Ex", "http://a.com/~x", "ftp://f.org/z",
          "  http://a.com/padded  ", "http://localhost:8000/x", "tel:+33", "/a:b", "http://xn--9ca.fr/", "http://é.fr/"]
 HREFS_SPACE = ["http://a.com/a b", " ", "http://a.com/x\xa0y", "\xa0http://a.com/nb\xa0"]
+TRICKY_ATTRS = [' title="a>b"', ' title="copy href=/fake"', " data-x='x href=\"/fake\"'", ' title="1 > 0" data-href="/fake"']
 ATTRS = ["", ' class="c"', " title='a b'", " data-x=1", ' id="é"', " rel=nofollow target=_blank"]
 SEPS = [" ", "\n", "\t", "  ", "\xa0", " ", " "]
 TEXTS = ["hello ", "é à ü", "&amp; &lt;b&gt;", "<b>bold</b>", "<p>", "a &gt; b", "\n", "<br/>", "<div class='a'>x</div>", "<!-- c -->"]
@@ -184,6 +222,13 @@ def _anchor_variants():
     yield {"k": "a", "href": "http://a.com/up", "quote": "dq", "tag": "A", "attr": "HREF"}
     yield {"k": "a", "href": "http://a.com/up2", "quote": "sq", "tag": "A", "attr": "Href", "closed": False}
     yield {"k": "a", "href": "/unclosed", "quote": "none", "closed": False}
+    # other elements whose name merely begins with 'a' are not anchor tags
+    for t in ["abbr", "area", "article", "ABBR", "a-x", "ax"]:
+        yield {"k": "a", "href": "http://a.com/not-an-anchor", "quote": "dq", "tag": t, "before": ' title="t"'}
+    # markup-like text inside the values of *other* attributes
+    for tricky in TRICKY_ATTRS:
+        yield {"k": "a", "href": "http://a.com/real", "quote": "dq", "before": tricky}
+        yield {"k": "a", "href": "/real2", "quote": "sq", "after": tricky}
 
 
 def _script_variants():
